@@ -12,6 +12,7 @@ import (
 	"sort"
 	"strings"
 	"sync"
+	"sync/atomic"
 	"time"
 
 	"github.com/cloudwego/hertz/pkg/common/hlog"
@@ -139,6 +140,11 @@ func (c *Client) Do(req *protocol.Request) (o RespObs) {
 		return
 	}
 	o.Status = resp.StatusCode()
+	if o.Status == 101 {
+		// an upgraded connection stays counted by the host client until a finalizer closes it: after MaxConns of them
+		// every further exchange of this client fails with "no free connections" - not reusable for another execution
+		c.Tainted = true
+	}
 	o.CL = resp.Header.ContentLength()
 	o.Close = resp.ConnectionClose()
 	resp.Header.VisitAll(func(k, v []byte) {
@@ -330,15 +336,27 @@ func ObserveResponse(stream []byte, segs [][]byte, streaming bool, name string) 
 
 // ObserveRaw performs one GET exchange against a peer that answers with the given raw bytes.
 func ObserveRaw(segs [][]byte, streaming bool) RespObs {
-	sc := netsim.NewScriptConn(segs, netsim.EndEOF)
-	c := get(streaming)
-	defer put(streaming, c)
-	c.Reset(sc)
-	req := protocol.AcquireRequest()
-	req.SetMethod("GET")
-	req.SetRequestURI("http://h/x")
-	o := c.Do(req)
-	protocol.ReleaseRequest(req)
-	c.Reset()
-	return o
+	for attempt := 0; ; attempt++ {
+		sc := netsim.NewScriptConn(segs, netsim.EndEOF)
+		c := get(streaming)
+		c.Reset(sc)
+		req := protocol.AcquireRequest()
+		req.SetMethod("GET")
+		req.SetRequestURI("http://h/x")
+		o := c.Do(req)
+		protocol.ReleaseRequest(req)
+		c.Reset()
+		if strings.Contains(o.Err, "no free connections") && attempt == 0 {
+			// the pooled client was exhausted by earlier executions (never by this one: it has made one call):
+			// drop it and observe this input on a fresh client
+			atomic.AddInt64(&Exhausted, 1)
+			continue
+		}
+		put(streaming, c)
+		return o
+	}
 }
+
+// Exhausted counts executions that found their pooled host client without a free connection slot (harness
+// bookkeeping: such an execution is repeated on a fresh client; the count is reported so that it can be seen to be 0).
+var Exhausted int64
